@@ -369,7 +369,7 @@ def replay(pid, path):
 
 
 def setup():
-    rc, out = sh(['lake', 'build'], cwd=LEAN, timeout=6000)
+    rc, out = sh(['lake', 'build', 'ClockBound', 'cbmodel'], cwd=LEAN, timeout=6000)
     print(out[-1500:])
     if rc != 0: return rc
     rc, out = build_harness()
